@@ -1,0 +1,251 @@
+//go:build verif
+
+package keeper
+
+// Contracts checked by /verif/govc (contract-based deductive verification).
+// Comment-only: with the `verif` tag off this file is not even parsed.
+
+// ---- parameters as functions of the context (assumed: the param store is a function of the state) ----
+//@ pure aMinStake(c Iface) int
+//@ pure aMaxApps(c Iface) int
+//@ pure aMaxChains(c Iface) int
+//@ pure aBaseRate(c Iface) int
+//@ pure aStabAdj(c Iface) int
+//@ pure aPartOn(c Iface) bool
+//@ func (Keeper).MinimumStake
+//@   trusted parameter getter: a deterministic function of the context's state
+//@   pure_fn
+//@   ensures res == aMinStake(ctx)
+//@ func (Keeper).MaxApplications
+//@   trusted parameter getter: a deterministic function of the context's state
+//@   pure_fn
+//@   ensures res == aMaxApps(ctx)
+//@ func (Keeper).MaxChains
+//@   trusted parameter getter: a deterministic function of the context's state
+//@   pure_fn
+//@   ensures res == aMaxChains(ctx)
+//@ func (Keeper).BaselineThroughputStakeRate
+//@   trusted parameter getter: a deterministic function of the context's state
+//@   pure_fn
+//@   ensures base == aBaseRate(ctx)
+//@ func (Keeper).StakingAdjustment
+//@   trusted parameter getter: a deterministic function of the context's state
+//@   pure_fn
+//@   ensures adjustment == aStabAdj(ctx)
+//@ func (Keeper).ParticipationRateOn
+//@   trusted parameter getter: a deterministic function of the context's state
+//@   pure_fn
+//@   ensures isOn == aPartOn(ctx)
+//@ func (Keeper).StakeDenom
+//@   trusted parameter getter
+//@   pure_fn
+//@ pure aUnstakingTime(c Iface) int
+//@ func (Keeper).GetParams
+//@   trusted parameter getter
+//@   pure_fn
+//@   ensures result.UnstakingTime == aUnstakingTime(ctx)
+//@ func (Keeper).Logger
+//@   trusted logger accessor
+//@   pure_fn
+//@   ensures result != nil
+
+// ---- application records as ghost state (assumed link between the KV store and the record) ----
+//@ ghost appHas map[Bytes]bool
+//@ ghost appStake map[Bytes]int
+//@ ghost appStatus map[Bytes]int
+//@ ghost appRelays map[Bytes]int
+//@ pure aStakedCount(c Iface) int
+
+//@ func (Keeper).GetApplication
+//@   trusted record lookup: store read + codec (amino/proto unmarshal is outside /repo)
+//@   modifies bigv
+//@   ensures found == appHas[bytes(addr)]
+//@   ensures found ==> application.StakedTokens.i != nil && fresh(application.StakedTokens.i) && bigv[application.StakedTokens.i] == appStake[bytes(addr)] && bytes(application.Address) == bytes(addr) && application.Status == appStatus[bytes(addr)]
+//@   ensures found ==> application.MaxRelays.i != nil && fresh(application.MaxRelays.i) && bigv[application.MaxRelays.i] == appRelays[bytes(addr)] && application.MaxRelays.i != application.StakedTokens.i
+//@   ensures forall p int {bigv[p]} :: isold(p) ==> bigv[p] == old(bigv[p])
+
+//@ func (Keeper).getStakedApplicationsCount
+//@   trusted iterator count over the staked-applications index (index maintenance belongs to C21's family): a function of the state
+//@   pure_fn
+//@   ensures count == aStakedCount(ctx)
+
+//@ func ensurePubKeyTypeSupported
+//@   trusted consensus-parameter lookup and key-type check (tendermint types)
+//@   pure_fn
+
+// call events: the record handed to SetApplication, the address handed to DeleteApplication
+//@ ghost appSetN int
+//@ ghost lastSetApp x/apps/types.Application
+//@ ghost lastSetAppStake int
+//@ ghost lastSetAppRelays int
+//@ ghost lastSetAppAddr Bytes
+//@ ghost appDelN int
+//@ ghost lastDelApp Bytes
+//@ func (Keeper).SetApplication
+//@   trusted call event only: records the application written (store + codec effects are not modelled here)
+//@   modifies appSetN, lastSetApp, lastSetAppStake, lastSetAppRelays, lastSetAppAddr
+//@   ensures appSetN == old(appSetN) + 1 && lastSetApp == application && lastSetAppAddr == bytes(application.Address) && lastSetAppStake == old(bigv[application.StakedTokens.i]) && lastSetAppRelays == old(bigv[application.MaxRelays.i])
+//@ func (Keeper).DeleteApplication
+//@   trusted call event only: records the address whose record is deleted
+//@   modifies appDelN, lastDelApp
+//@   ensures appDelN == old(appDelN) + 1 && lastDelApp == bytes(addr)
+//@ func (Keeper).deleteApplicationFromStakingSet
+//@   trusted KV-store effect only (index maintenance): no Go object visible to the caller is modified
+//@ func (Keeper).SetStakedApplication
+//@   trusted KV-store effect only (index maintenance): no Go object visible to the caller is modified
+//@ func (Keeper).deleteUnstakingApplication
+//@   trusted KV-store effect only (index maintenance): no Go object visible to the caller is modified
+//@ func (Keeper).SetUnstakingApplication
+//@   trusted KV-store effect only (index maintenance): no Go object visible to the caller is modified
+
+// ---- C28: admission ---------------------------------------------------------------------------
+// A NEW stake (anything that is not an edit of an already staked application) is accepted only
+// with amount >= minimum stake, at most MaxChains chains, spendable funds covering the stake and
+// - once the upgrade height has passed - fewer than MaxApplications staked applications.
+//@ func (Keeper).ValidateApplicationStaking
+//@   props C28,C12
+//@   modifies bigv, hasCoinsN, hasCoinsOK, hasCoinsAddr, hasCoinsAmt
+//@   ensures [bigv-kept] forall p int {bigv[p]} :: isold(p) ==> bigv[p] == old(bigv[p])
+//@   ensures [max-chains] result == nil ==> len(application.Chains) <= aMaxChains(ctx)
+//@   ensures [min-stake] result == nil && !(old(appHas[bytes(application.Address)]) && ctxAfterUpgrade(ctx) && old(appStatus[bytes(application.Address)]) == 2) ==> old(bigv[amount.i]) >= aMinStake(ctx)
+//@   ensures [funds] result == nil && !(old(appHas[bytes(application.Address)]) && ctxAfterUpgrade(ctx) && old(appStatus[bytes(application.Address)]) == 2) ==> hasCoinsN != old(hasCoinsN) && hasCoinsOK && hasCoinsAddr == bytes(application.Address) && singleAmt(hasCoinsAmt) == old(bigv[amount.i])
+//@   ensures [max-apps] result == nil && ctxAfterUpgrade(ctx) && !(old(appHas[bytes(application.Address)]) && old(appStatus[bytes(application.Address)]) == 2) ==> aStakedCount(ctx) < aMaxApps(ctx)
+//@   ensures [only-unstaked-restake] result == nil && old(appHas[bytes(application.Address)]) && !(ctxAfterUpgrade(ctx) && old(appStatus[bytes(application.Address)]) == 2) ==> old(appStatus[bytes(application.Address)]) == 0
+//@   ensures [edit-no-decrease] result == nil && old(appHas[bytes(application.Address)]) && ctxAfterUpgrade(ctx) && old(appStatus[bytes(application.Address)]) == 2 ==> old(bigv[amount.i]) >= old(appStake[bytes(application.Address)])
+
+// edit of a staked application: never below the current stake; a bump needs funds for the difference
+//@ func (Keeper).ValidateEditStake
+//@   props C28,C23,C12
+//@   modifies bigv, hasCoinsN, hasCoinsOK, hasCoinsAddr, hasCoinsAmt
+//@   ensures [bigv-kept] forall p int {bigv[p]} :: isold(p) ==> bigv[p] == old(bigv[p])
+//@   ensures [no-decrease] result == nil ==> old(bigv[amount.i]) >= old(bigv[currentApp.StakedTokens.i])
+//@   ensures [bump-funded] result == nil && old(bigv[amount.i]) > old(bigv[currentApp.StakedTokens.i]) ==> hasCoinsN != old(hasCoinsN) && hasCoinsOK && hasCoinsAddr == bytes(currentApp.Address) && singleAmt(hasCoinsAmt) == old(bigv[amount.i]) - old(bigv[currentApp.StakedTokens.i])
+
+// transfer: only after both upgrades, only when the SIGNER is a staked application, and only to
+// a key that has no application record; the record returned is the signer's
+//@ func (Keeper).ValidateApplicationTransfer
+//@   props C28,C14,C12
+//@   modifies bigv
+//@   ensures [bigv-kept] forall p int {bigv[p]} :: isold(p) ==> bigv[p] == old(bigv[p])
+//@   ensures [upgrades] result1 == nil ==> ctxAfterUpgrade(ctx) && ((global(codec.UpgradeFeatureMap)["AppTransfer"] != 0 && ctxHeight(ctx) >= global(codec.UpgradeFeatureMap)["AppTransfer"]) || global(codec.TestMode) <= 0 - 3)
+//@   ensures [signer-is-staked-app] result1 == nil ==> old(appHas[pkAddr(signer)]) && old(appStatus[pkAddr(signer)]) == 2
+//@   ensures [returns-signers-record] result1 == nil ==> bytes(result0.Address) == pkAddr(signer) && result0.StakedTokens.i != nil && bigv[result0.StakedTokens.i] == old(appStake[pkAddr(signer)]) && result0.MaxRelays.i != nil && bigv[result0.MaxRelays.i] == old(appRelays[pkAddr(signer)])
+//@   ensures [new-key-unused] result1 == nil ==> !old(appHas[pkAddr(msg.PubKey)])
+
+// transfer keeps stake, allowance, chains; the new record is staked under the new key; the old record is deleted
+//@ func (Keeper).TransferApplication
+//@   props C28,C20,C12
+//@   modifies all
+//@   ensures [one-write] appSetN == old(appSetN) + 1
+//@   ensures [new-record] bytes(lastSetApp.Address) == pkAddr(newAppPubKey) && lastSetApp.PublicKey == newAppPubKey && lastSetApp.Status == 2
+//@   ensures [keeps-stake] lastSetAppStake == old(bigv[curApp.StakedTokens.i]) && lastSetAppRelays == old(bigv[curApp.MaxRelays.i])
+//@   ensures [keeps-rest] lastSetApp.Chains == curApp.Chains && lastSetApp.Jailed == curApp.Jailed && lastSetApp.UnstakingCompletionTime == curApp.UnstakingCompletionTime
+//@   ensures [old-deleted] appDelN == old(appDelN) + 1 && lastDelApp == bytes(curApp.Address)
+//@   ensures [no-coins-move] bankA2MN == old(bankA2MN) && bankSendN == old(bankSendN) && bankBurnN == old(bankBurnN)
+
+// ---- C20: pool movements ----------------------------------------------------------------------
+//@ func (Keeper).coinsFromUnstakedToStaked
+//@   props C20,C12
+//@   modifies bankA2MN, bankA2MOK, bankA2MFrom, bankA2MTo, bankA2MCoins, bigv
+//@   ensures [bigv-kept] forall p int {bigv[p]} :: isold(p) ==> bigv[p] == old(bigv[p])
+//@   ensures [moves-amount] result == nil ==> bankA2MN == old(bankA2MN) + 1 && bankA2MFrom == bytes(application.Address) && bankA2MTo == "application_staked_tokens_pool" && singleAmt(bankA2MCoins) == old(bigv[amount.i]) && old(bigv[amount.i]) >= 0
+//@   ensures [or-nothing] result != nil ==> bankA2MN == old(bankA2MN) || (bankA2MN == old(bankA2MN) + 1 && !bankA2MOK)
+
+//@ func (Keeper).coinsFromStakedToUnstaked
+//@   props C20,C24,C12
+//@   modifies bankSendN, bankSendTo, bankSendFrom, bankSendCoins, bankSendOK
+//@   ensures [returns-stake] bankSendN == old(bankSendN) + 1 && bankSendFrom == "application_staked_tokens_pool" && bankSendTo == bytes(application.Address) && singleAmt(bankSendCoins) == old(bigv[application.StakedTokens.i])
+
+// staking a new application: the pool receives exactly the amount the record is credited with
+//@ func (Keeper).StakeApplication
+//@   props C20,C28,C12
+//@   modifies all
+//@   ensures [new-stake] result == nil && !(ctxAfterUpgrade(ctx) && old(appHas[bytes(application.Address)]) && old(appStatus[bytes(application.Address)]) == 2) ==> bankA2MN == old(bankA2MN) + 1 && bankA2MFrom == bytes(application.Address) && singleAmt(bankA2MCoins) == old(bigv[amount.i]) && appSetN == old(appSetN) + 1 && lastSetAppStake == old(bigv[application.StakedTokens.i]) + old(bigv[amount.i]) && lastSetApp.Status == 2 && lastSetApp.Address == application.Address
+//@   ensures [allowance-from-stake] result == nil && !(ctxAfterUpgrade(ctx) && old(appHas[bytes(application.Address)]) && old(appStatus[bytes(application.Address)]) == 2) ==> lastSetAppRelays == appRelaysOf(ctx, lastSetAppStake)
+//@   ensures [deletes-only-own-record] appDelN != old(appDelN) ==> appSetN != old(appSetN) && lastDelApp == lastSetAppAddr
+//@   ensures [no-outflow] bankSendN == old(bankSendN) && bankBurnN == old(bankBurnN)
+
+// edit: the pool receives exactly the bump (never pays out); the stake never decreases
+//@ func (Keeper).EditStakeApplication
+//@   props C20,C23,C12
+//@   modifies all
+//@   ensures [bump] result == nil && old(bigv[amount.i]) > old(bigv[application.StakedTokens.i]) ==> bankA2MN == old(bankA2MN) + 1 && bankA2MFrom == bytes(application.Address) && singleAmt(bankA2MCoins) == old(bigv[amount.i]) - old(bigv[application.StakedTokens.i]) && lastSetAppStake == old(bigv[amount.i])
+//@   ensures [no-bump] result == nil && old(bigv[amount.i]) <= old(bigv[application.StakedTokens.i]) ==> bankA2MN == old(bankA2MN) && lastSetAppStake == old(bigv[application.StakedTokens.i])
+//@   ensures [identity] result == nil ==> appSetN == old(appSetN) + 1 && lastSetApp.Address == application.Address && lastSetAppAddr == old(bytes(application.Address)) && lastSetApp.PublicKey == application.PublicKey && lastSetApp.Jailed == application.Jailed && lastSetApp.Status == application.Status && lastSetApp.UnstakingCompletionTime == application.UnstakingCompletionTime
+//@   ensures [chains-from-message] result == nil ==> lastSetApp.Chains == updatedApplication.Chains
+//@   ensures [replaces-own-record] result == nil ==> appDelN == old(appDelN) + 1 && lastDelApp == old(bytes(application.Address))
+//@   ensures [error-writes-nothing] result != nil ==> appSetN == old(appSetN) && appDelN == old(appDelN)
+//@   ensures [allowance-from-stake] result == nil && old(bigv[amount.i]) > old(bigv[application.StakedTokens.i]) ==> lastSetAppRelays == appRelaysOf(ctx, lastSetAppStake)
+//@   ensures [no-outflow] bankSendN == old(bankSendN) && bankBurnN == old(bankBurnN)
+
+// ---- C24: applications leave the staked state and get the stake back exactly once -------------
+// begin-unstake: only a staked, unjailed application; the record becomes Unstaking, keeps its
+// stake, and (when no completion time is set yet) completes at block time + unstaking time; no coins move
+//@ func (Keeper).ValidateApplicationBeginUnstaking
+//@   props C24,C12
+//@   ensures [staked-not-jailed] result == nil ==> application.Status == 2 && !application.Jailed
+//@ func (Keeper).BeginUnstakingApplication
+//@   props C24,C20,C12
+//@   modifies all
+//@   ensures [record] appSetN == old(appSetN) + 1 && lastSetApp.Status == 1 && lastSetApp.Address == application.Address && lastSetAppStake == old(bigv[application.StakedTokens.i]) && lastSetApp.Jailed == application.Jailed
+//@   ensures [due-time] timeIsZero(application.UnstakingCompletionTime) ==> unixNano(lastSetApp.UnstakingCompletionTime) == ctxBlockTimeNs(ctx) + aUnstakingTime(ctx)
+//@   ensures [due-time-kept] !timeIsZero(application.UnstakingCompletionTime) ==> lastSetApp.UnstakingCompletionTime == application.UnstakingCompletionTime
+//@   ensures [no-coins-move] bankA2MN == old(bankA2MN) && bankSendN == old(bankSendN) && bankBurnN == old(bankBurnN)
+//@ func (Keeper).ValidateApplicationFinishUnstaking
+//@   props C24,C12
+//@   ensures [unstaking-not-jailed] result == nil ==> application.Status == 1 && !application.Jailed
+
+// the mature queue is read from the queue prefix up to (and including) the key of the BLOCK time
+//@ func (Keeper).unstakingApplicationsIterator
+//@   props C24,C12
+//@   modifies itPos, itN, itKey, itVal, itStore, itLo, itHi, itHiNil, itRev
+//@   ensures [open] result0 != nil && itPos[result0] == 0 && itN[result0] >= 0
+//@   ensures [up-to-given-time] result1 == nil ==> result0 != nil && !itRev[result0] && itLo[result0] == bytes(global(types.UnstakingAppsKey)) && !itHiNil[result0] && itHi[result0] == cat(cat(bytes(global(types.UnstakingAppsKey)), timeKey(unixNano(endTime))), b1(0))
+
+// the stake goes back only for an application that is Unstaking and not jailed (precondition,
+// checked at every call site), exactly once, to the application's own address
+//@ func (Keeper).FinishUnstakingApplication
+//@   props C24,C20,C12
+//@   requires application.Status == 1 && !application.Jailed
+//@   modifies bankSendN, bankSendTo, bankSendFrom, bankSendCoins, bankSendOK, appSetN, lastSetApp, lastSetAppStake, lastSetAppRelays, lastSetAppAddr, bigv
+//@   ensures [bigv-kept] forall p int {bigv[p]} :: isold(p) ==> bigv[p] == old(bigv[p])
+//@   ensures [no-inflow-no-burn] bankA2MN == old(bankA2MN) && bankBurnN == old(bankBurnN)
+//@   ensures [returns-stake-once] bankSendN == old(bankSendN) + 1 && bankSendFrom == "application_staked_tokens_pool" && bankSendTo == bytes(application.Address) && singleAmt(bankSendCoins) == old(bigv[application.StakedTokens.i])
+//@   ensures [record-unstaked] appSetN == old(appSetN) + 1 && lastSetApp.Status == 0 && lastSetAppRelays == 0 && (old(bigv[application.StakedTokens.i]) >= 0 ==> lastSetApp.Address == application.Address)
+//@   ensures [record-emptied] old(bigv[application.StakedTokens.i]) >= 0 ==> lastSetAppStake == 0
+
+// the relay allowance is a function of the stake and the parameters only:
+//   trunc( participation * (base/100 * stake/10^6) + adjustment ), capped at 2^64-1   (18-decimal fixed point, banker's rounding)
+//@ pure aAppStaked(c Iface) int
+//@ pure aNodeStaked(c Iface) int
+//@ pure aTotalTokens(c Iface) int
+//@ func (Keeper).GetStakedTokens
+//@   trusted pool balance lookup (module account + coin lookup): a function of the state
+//@   modifies bigv
+//@   ensures result.i != nil && fresh(result.i) && bigv[result.i] == aAppStaked(ctx)
+//@   ensures forall p int {bigv[p]} :: isold(p) ==> bigv[p] == old(bigv[p])
+//@ func (Keeper).TotalTokens
+//@   trusted supply lookup: a function of the state
+//@   modifies bigv
+//@   ensures result.i != nil && fresh(result.i) && bigv[result.i] == aTotalTokens(ctx)
+//@   ensures forall p int {bigv[p]} :: isold(p) ==> bigv[p] == old(bigv[p])
+//@ pure partRate(c Iface) int = ite(aPartOn(c), rhe(go_div((aAppStaked(c) + aNodeStaked(c)) * 1000000000000000000 * 1000000000000000000 * 1000000000000000000, aTotalTokens(c) * 1000000000000000000)), 1000000000000000000)
+//@ pure basePct(c Iface) int = rhe(go_div(aBaseRate(c) * 1000000000000000000 * 1000000000000000000 * 1000000000000000000, 100 * 1000000000000000000))
+//@ pure baseThroughput(c Iface, stake int) int = rhe(basePct(c) * rhe(go_div(stake * 1000000000000000000 * 1000000000000000000 * 1000000000000000000, 1000000 * 1000000000000000000)))
+//@ pure rawRelays(c Iface, stake int) int = go_div(rhe(partRate(c) * baseThroughput(c, stake)) + aStabAdj(c) * 1000000000000000000, 1000000000000000000)
+//@ pure appRelaysOf(c Iface, stake int) int = ite(rawRelays(c, stake) >= 18446744073709551615, 18446744073709551615, rawRelays(c, stake))
+//@ func (Keeper).CalculateAppRelays
+//@   props C28,C12
+//@   modifies bigv
+//@   ensures [allowance] result.i != nil && bigv[result.i] == appRelaysOf(ctx, old(bigv[application.StakedTokens.i]))
+//@   ensures [frame] forall p int {bigv[p]} :: isold(p) ==> bigv[p] == old(bigv[p])
+
+// every mature entry: looked up, validated (Unstaking, not jailed) and only then finished; the
+// queue is read up to the block time; the sweep never takes coins from an account or burns
+//@ func (Keeper).unstakeAllMatureApplications
+//@   props C24,C20,C12
+//@   modifies all
+//@   ensures [no-inflow-no-burn] bankA2MN == old(bankA2MN) && bankBurnN == old(bankBurnN)
+//@   loop 0 invariant bankA2MN == old(bankA2MN) && bankBurnN == old(bankBurnN)
+//@   loop 0 invariant unstakingApplicationsIterator != nil && 0 <= itPos[unstakingApplicationsIterator] && itPos[unstakingApplicationsIterator] <= itN[unstakingApplicationsIterator]
+//@   loop 1 invariant bankA2MN == old(bankA2MN) && bankBurnN == old(bankBurnN)
